@@ -11,7 +11,7 @@
 import Psa.Proofs.EncBound
 import Psa.Cbor.Consumes
 import Psa.Tie.Encoding
-import Psa.Tie.Facts
+import Psa.Tie.Facts.Alloc
 namespace Psa.Props.C06
 open Psa Psa.Model Psa.Model.Enc Psa.Proofs.Enc
 
